@@ -17,7 +17,7 @@ func (c02) Budget(tier string) int {
 	if tier == "thorough" {
 		return 80000
 	}
-	return 3000
+	return 30000
 }
 
 func (c02) Describe() engine.Info {
@@ -28,7 +28,7 @@ func (c02) Describe() engine.Info {
 			"the idle period of HALT, the wake-up from it and the interrupt dispatch lengths are judged by C04/C05, not here (a HALT that does not idle is: class halt-no-idle)",
 			"instruction-stream fetch timing is not observable at cycle boundaries and not judged",
 		},
-		RequiredProbes: []string{"instructions", "cond_taken", "cond_not_taken"},
+		RequiredProbes: []string{"instructions", "cond_taken", "cond_not_taken", "dma_started_mid_instruction"},
 		RealComponents: realComponents, StubComponents: stubComponents,
 		Sweeps: []string{"every lock-step opcode x 16 flag nibbles (class flags16)"},
 	}
@@ -118,6 +118,16 @@ func (c02) Generate(r *engine.Rand, index int, tier string) *engine.Scenario {
 	}
 	sc.Class = "program"
 	genCPUProgram(r, sc, r.Range(1, 40))
+	if index%4 == 3 {
+		// the same programs while OAM DMA transfers are in flight: instruction lengths do not depend on
+		// what the other bus parties do (only lengths are judged here, so the data the program reads
+		// from OAM meanwhile is irrelevant)
+		sc.Class = "program-dma"
+		for at := uint64(r.Intn(40)); at < sc.Cycles; at += uint64(r.Range(20, 400)) {
+			sc.Events = append(sc.Events, engine.Event{At: at, K: "dma", V: engine.Pick(r, []uint8{0x00, 0x3f, 0x80, 0x9f, 0xc0, 0xc1, 0xd0, 0xdf, 0xe0, 0xf1, r.Byte() % 0xf2})})
+		}
+		sortEvents(sc.Events)
+	}
 	return sc
 }
 
